@@ -7,6 +7,7 @@ Correspondence (model vs real code)
           third-party parser's nodes/edges are sent through the model's `relabel` / `bipnx`
   read    arbitrary / mutated texts of the in-house formats: outcome class and resulting graph
   relabel `from_networkx` on networkx graphs with arbitrary integer or string labels
+  dotread hand-made dot texts with arbitrary node names: real pydot parse -> the model's dot-branch relabelling
   read3p  mutated gml / dot texts (no model: the third-party parsers are not modelled)
 
 Oracle (independent of the model)
@@ -47,7 +48,6 @@ RULE = ("graphs: four types x shapes (empty, isolated vertices, paths, stars, co
         "non-trivial = graph with an edge / text with a digit")
 ASSUMPTIONS = [
     "texts are ASCII (Python's int() also accepts non-ASCII decimal digits; outside the lexer model)",
-    "graph names are single-line (the name is written verbatim after 'c ')",
     "streams are io.StringIO or files of a private temp dir; a text-mode file translates \\r\\n to \\n before the reader",
 ]
 TRUSTED_EXTRA = [
@@ -336,7 +336,8 @@ def nx_parse(text, fmt):
     return G
 
 
-def relabel_req(ty, N):
+def relabel_req(ty, N, dot=False):
+    """`dot=True`: string names as the dot branch of readGraph treats them (all-digit names -> ints)"""
     nodes = list(N.nodes())
     edges = [(e[0], e[1]) for e in N.edges()]
     if ty == "bipartite":
@@ -355,7 +356,7 @@ def relabel_req(ty, N):
     enc2 = [len(edges)]
     for u, v in edges:
         enc2 += enc_str(u) + enc_str(v)
-    return req("relabel", TY[ty], 1, enc, enc2)
+    return req("relabel", TY[ty], 2 if dot else 1, enc, enc2)
 
 
 GML_TOKEN = re.compile(r'"[^"]*"|\[|\]|[^\s\[\]]+')
@@ -464,8 +465,7 @@ def build(suite, info):
 
         def impl():
             t = write_text(make_graph(ty, g), ty, fmt, name)
-            # the row-level writer of the model has ONE comment row: true of the text iff the name is one line
-            return ok(("0 " if "\n" in name and fmt != "matrix" else "1 ") + " ".join(str(x) for x in enc_str(t)))
+            return ok("1 " + " ".join(str(x) for x in enc_str(t)))
         r = req("wgraph", FMT[fmt], TY[ty], enc_str(name), enc_g(ty, g))
         return Case(suite, r, impl, roundtrip_oracle(ty, fmt, g, name, info.get("via", "stringio")),
                     cls=info.get("cls") or "{}:{}:{}".format(fmt, ty, info.get("shape", "")),
@@ -482,7 +482,7 @@ def build(suite, info):
     if suite == "rtrip3p":
         ty, fmt, g = info["ty"], info["fmt"], info["g"]
         text = write_text(make_graph(ty, g), ty, fmt, info.get("name"))
-        r = relabel_req(ty, nx_parse(text, fmt))
+        r = relabel_req(ty, nx_parse(text, fmt), dot=(fmt == "dot"))
 
         def impl():
             return ok(view(read_text(text, ty, fmt)))
@@ -534,6 +534,15 @@ def build(suite, info):
                 return {"from_networkx": "order of labels not preserved", "want": want, "got": got}
             return None
         return Case(suite, r, impl, oracle, cls="{}:{}".format(ty, info.get("kind", "")), nontrivial=len(edges) > 0, info=info)
+    if suite == "dotread":
+        # hand-made dot texts with arbitrary node names: third-party parse -> model's dot relabelling
+        ty, text = info["ty"], info["text"]
+        r = relabel_req(ty, nx_parse(text, "dot"), dot=True)
+
+        def impl():
+            return ok(view(read_text(text, ty, "dot")))
+        return Case(suite, r, impl, read_oracle(text, ty, "dot"), cls="dot:" + info.get("kind", ""),
+                    nontrivial="-" in text, info=info)
     if suite == "read3p":
         ty, fmt, text = info["ty"], info["fmt"], info["text"]
 
@@ -602,7 +611,9 @@ def gen_graph(rng, ty, shape=None, big=None):
     return {"n": n, "edges": es}, shape + (":big" if big else "")
 
 
-NAMES = ["G", "", "a graph with spaces", "  padded  ", "c", "p edge 3 2", "e 1 2", "5", "1 : 2 0", "x:y", "# n"]
+NAMES = ["G", "", "a graph with spaces", "  padded  ", "c", "p edge 3 2", "e 1 2", "5", "1 : 2 0", "x:y", "# n",
+         "two\nlines", "a\np edge 5 0\ne 1 2", "x\n1 : 2 0\n3", "trailing\n", "\n", "a\n\nb", "cr\rlf\r\nvt\x0bff\x0cfs\x1cgs\x1drs\x1eus\x1fend",
+         " \n \t\n"]
 JUNK_LINES = ["", " ", "\t", "c", "c comment", "C comment", " c indented", "# hash", "x", "0", "1", "-1", "99",
               "1 : 0", "1 : 1 0", "2 : 1 0", "1 : 2 0", "1 : 2", "1 2 0", ": 0", "1 :: 0", "p edge 2 1", "p edge 2", "p col 2 1",
               "e 1 2", "e 2 1", "e 1 1", "e 1", "e 1 2 3", "edge 1 2", "n 1 2", "1 0", "0 1", "2", "1 x", "+1", "1_0", "01", "\r"]
@@ -726,11 +737,30 @@ def cases(ctx):
         for n in (9, 10, 11, 12):
             infos.append(("rtrip3p", dict(ty=ty, fmt="dot", g={"n": n, "edges": [(i, i + 1) for i in range(1, n)]}, name="path")))
     infos.append(("rtrip3p", dict(ty="bipartite", fmt="dot", g={"l": 10, "r": 11, "edges": [(i, i) for i in range(1, 11)] + [(10, 11)]}, name="b")))
-    # ---- corpus: D36 (a graph name with a line break is written verbatim after 'c ')
+    # ---- corpus: former D40 (a graph name with a line break; one 'c ' line per line since 91715a4)
     for fmt, ty, name in (("kthlist", "simple", "two\nlines"), ("dimacs", "digraph", "a\np edge 5 0"),
                           ("kthlist", "bipartite", "x\n1 : 2 0")):
         g = {"l": 1, "r": 1, "edges": [(1, 1)]} if ty == "bipartite" else {"n": 2, "edges": [(1, 2)]}
         infos.append(("write", dict(ty=ty, fmt=fmt, g=g, name=name, cls="multiline-name")))
+    # ---- dot texts with arbitrary node names (all-digit names become ints, "01" and "1" merge, others sort as strings)
+    pool = ["1", "2", "3", "10", "11", "9", "01", "007", "0", "a", "b", "ab", "B", "x1", "1x", "n_2"]
+    for i in range(40 if quick else 400):
+        ty = rng.choice(["simple", "digraph", "dag"])
+        style = rng.choice(["digits", "digits", "mixed", "words"])
+        names = rng.sample({"digits": pool[:9], "mixed": pool, "words": pool[9:]}[style], rng.randint(0, 6))
+        if i == 0:
+            ty, names, style = "simple", ["01", "1", "2"], "digits"
+        arrow = " -- " if ty == "simple" else " -> "
+        body = ["{};".format(u) for u in names]
+        for _e in range(rng.randint(0, 2 * len(names))):
+            u, v = rng.choice(names), rng.choice(names)
+            if u != v or ty == "digraph":
+                body.append(u + arrow + v + ";")
+        if i == 0:
+            body = ["01;", "1;", "2;", "01 -- 2;"]
+        rng.shuffle(body) if rng.random() < .3 else None
+        text = ("strict graph" if ty == "simple" else "strict digraph") + " {\n" + "\n".join(body) + "\n}\n"
+        infos.append(("dotread", dict(ty=ty, text=text, kind=style)))
     # ---- round trips: every type x every supported format x shapes
     reps = 3 if quick else 24
     vias = ["stringio", "stringio", "file", "file-autodetect", "from_file", "cli"]
